@@ -755,7 +755,7 @@ def violation_kind(what: str) -> str:
     if "required array None" in d:
         return "required-array-none"
     if "out of range" in d:
-        return "int-out-of-range"
+        return "enum-out-of-range" if d.startswith("enum ") else "int-out-of-range"
     if "over length-field limit" in d:
         return ("string" if d.startswith("string") else "array") + "-over-length-field-limit"
     if d.startswith("string length"):
@@ -835,8 +835,12 @@ def run_c19(ctx: Ctx):
                         if isinstance(v, list):
                             v.append(v[0] if v else 0)
                             v.reverse()
-                    for pub in [k[1:] for k in cls.__annotations__ if k != "_byte_size"] + ["byte_size"]:
-                        if not isinstance(vars(cls).get(pub), property):
+                    # the public fields come from the specification (named fields and arrays, hard-coded ones included, and the
+                    # case data of every switch), not from what the class happens to define as properties
+                    declared = [it.name for it in ci.body.items if it.k in ("field", "array") and it.name] + \
+                               [it.name + "_data" for it in ci.body.items if it.k == "switch" and it.name]
+                    for pub in dict.fromkeys(declared + [k[1:] for k in cls.__annotations__ if k != "_byte_size"] + ["byte_size"]):
+                        if pub not in declared and pub != "byte_size" and not isinstance(vars(cls).get(pub), property):
                             continue  # length fields have no public attribute
                         try:
                             setattr(obj, pub, None)
